@@ -68,6 +68,12 @@ pub struct T2Cfg {
     pub policy: IoPolicy,
 }
 
+thread_local! {
+    /// set by a harness (on its own thread) before `T2::new`: the peer does *not* acknowledge the subject's initial SETTINGS
+    /// during the handshake, so that the harness can act while the acknowledgement is still outstanding
+    pub static NO_HANDSHAKE_ACK: std::cell::Cell<bool> = const { std::cell::Cell::new(false) };
+}
+
 pub fn guarded<T>(panics: &mut Vec<String>, what: &str, f: impl FnOnce() -> T) -> Option<T> {
     match catch_unwind(AssertUnwindSafe(f)) {
         Ok(v) => Some(v),
@@ -138,8 +144,10 @@ impl T2 {
                 t.drive(50);
                 t.peer_send(&wf::settings(&cfg.peer_settings));
                 t.drive(50);
-                t.peer_ack_settings();
-                t.drive(50);
+                if !NO_HANDSHAKE_ACK.with(|c| c.get()) {
+                    t.peer_ack_settings();
+                    t.drive(50);
+                }
             }
             Side::Server => {
                 sh.lock().unwrap().inject(Side::Client, wf::PREFACE);
@@ -152,8 +160,10 @@ impl T2 {
                     _ => t.conn_result = Some("handshake pending".into()),
                 }
                 t.drive(50);
-                t.peer_ack_settings();
-                t.drive(50);
+                if !NO_HANDSHAKE_ACK.with(|c| c.get()) {
+                    t.peer_ack_settings();
+                    t.drive(50);
+                }
             }
         }
         sh.lock().unwrap().chooser.recording = true;
